@@ -165,6 +165,22 @@ Theorem c03_unchecked_log_last_refuted :
 Proof. exact unchecked_log_last_refuted. Qed.
 Print Assumptions c03_unchecked_log_last_refuted.
 
+(* ---- the log's writer (finding W4, fixed in /repo d50b48c) ----
+   log_file steps = the lines of the appends whose write succeeded (the fixed writer: a failed call leaves nothing in the
+   buffer; regenerated: lw_forgets_failed in c03_current_log_write) — this is the log of the sinks model;
+   log_file_unfixed = a writer that keeps the line of a failed write and hands it to the next successful one (std
+   BufWriter, as found): the refused line reaches the file *)
+Theorem c03_log_file_is_model_log : forall (eo : emit_order) (s : schema) (steps : list (event * bool)),
+  wf_order eo = true ->
+  k_log (run_faulty eo s steps) = log_file (map (fun x => (write_line s (fst x), snd x)) steps).
+Proof. exact log_file_is_model_log. Qed.
+Print Assumptions c03_log_file_is_model_log.
+
+Theorem c03_log_writer_keeps_failed_line_refuted :
+  exists steps, log_file_unfixed [] steps <> log_file steps /\ exists l, In (l, false) steps /\ In l (log_file_unfixed [] steps).
+Proof. exact log_writer_keeps_failed_line_refuted. Qed.
+Print Assumptions c03_log_writer_keeps_failed_line_refuted.
+
 (* ---- the buffer a snapshot is written from is never shortened ----
    emit_capped cap = emit on a buffer that drops its oldest frame once it holds cap frames (the seeded change C03-6);
    below the cap it is emit; the source has no shortening call on the history buffers (regenerated on every run) *)
